@@ -1,9 +1,7 @@
 """C14 — FITS pyramids carry the leaves' true data range up to the root and the WTML."""
 PROPERTY = "C14"
 LEVEL = "other"
-CONTRACT_MODULES = ["contracts.specfuns", "contracts.lemmas_desc", "contracts.pyramid", "contracts.image", "contracts.merge",
-                    "contracts.pyramidio", "contracts.collection", "contracts.datarange", "contracts.study", "contracts.paths",
-                    "contracts.parallel", "contracts.multitan", "contracts.toastsample", "contracts.builderc"]
+CONTRACT_MODULES = ["contracts.specfuns", "contracts.lemmas_desc", "contracts.pyramid", "contracts.image", "contracts.merge", "contracts.pyramidio", "contracts.collection", "contracts.datarange", "contracts.study", "contracts.paths", "contracts.parallel", "contracts.multitan", "contracts.toastsample", "contracts.builderc", "contracts.walk", "contracts.reducer", "contracts.lemmas_embed", "contracts.generator", "contracts.toastgeom", "contracts.toastgen", "contracts.multiwcs"]
 FUNCTIONS = ["toasty.merge.TileMerger._get_min_max_of_children", "toasty.merge.TileMerger.walk_callback",
              "toasty.image.Image.save", "toasty.image.Image.from_array", "toasty.image.ImageLoader.load_path",
              "toasty.builder.Builder.cascade"]
